@@ -197,7 +197,16 @@ func readerKind(v ssa.Value, depth int) (string, string) {
 			switch callee.String() {
 			case "io.LimitReader":
 				return "partial", "io.LimitReader silently truncates the stream"
-			case "bufio.NewReader", "bufio.NewReaderSize", "io.TeeReader", "net/http.MaxBytesReader", "io.NopCloser":
+			case "net/http.MaxBytesReader":
+				// a fixed cap refuses every document longer than it — and the encoded size of a valid batch grows with the
+				// batch size and the tree depth without bound; a configurable limit (zero = none) is the deployer's choice
+				if len(x.Common().Args) == 3 {
+					if k, isConst := x.Common().Args[2].(*ssa.Const); isConst && k.Value != nil {
+						return "partial", "http.MaxBytesReader with the constant limit " + k.Value.String() + ": a well-formed document longer than that is refused"
+					}
+				}
+				return readerKind(x.Common().Args[1], depth+1)
+			case "bufio.NewReader", "bufio.NewReaderSize", "io.TeeReader", "io.NopCloser":
 				if len(x.Common().Args) > 0 {
 					for _, a := range x.Common().Args {
 						if strings.Contains(a.Type().String(), "Reader") || strings.Contains(a.Type().String(), "ReadCloser") {
